@@ -218,31 +218,44 @@ def run(rep, tier):
     rep.rule("R05.7", "the flush watermark last_saved_version is raised, behind the metadata PUT, to a value computed before that PUT (the version of the "
              "snapshot that was serialized): a value read after it may count a set_extension / mutation that landed while the PUT was in flight as saved, "
              "and the next flush then takes its no-change path", floor=1)
-    n57 = 0
+    watermark_rules(rep, "R05.7", prog, ("anda_db",), 1)
+    return rep.finish(EXPLAIN)
+
+
+def watermark_rules(rep, rid, prog, crates, floor):
+    """Every raise of a `last_saved_version` watermark that sits behind an awaited write: the value it is raised to has no
+    origin (call / closure result) computed after that write returned.  Raises with no awaited call in front of them (a
+    synchronous claim-then-write, or a value handed in by the caller) are counted, not judged."""
+    decided = 0
     for h in prog.fns.values():
-        if h.crate != "anda_db" or not prog.outer_fn(h).path.startswith(anda.COLL + "::"):
+        if h.crate not in crates:
             continue
         raises = [e for e in h.calls_named(r"Atomic::<u64>::(fetch_max|store|swap|fetch_add)$") if "last_saved_version" in anda.recv_fields(h, e)]
         if not raises:
             continue
         hname = prog.outer_fn(h).path.rsplit("::", 1)[1]
         rep.saw(h, len(raises))
-        mputs = [e for e in h.calls_named(r"^anda_db::storage::Storage::(put|put_bytes)$") if "METADATA_PATH" in path_class(prog, h, e)]
         for e in raises:
-            n57 += 1
-            before = [w for w in mputs if h.dominates(w.block, e.block) and w.block != e.block]
+            before = [a for a in h.calls() if a.awaited and a.block != e.block and h.dominates(a.block, e.block)]
+            if not before or len(e.args) < 2:
+                continue
+            decided += 1
             late = []
-            if before and len(e.args) > 1:
-                for o in h.slice_back_op(e.args[1]):
-                    ev = o[1] if len(o) > 1 else None
-                    if o[0] in ("call", "create") and ev is not None and getattr(ev, "fn", h) is h and any(
-                            h.dominates(w.block, ev.block) and ev.block != w.block for w in before):
-                        late.append(ev)
-            rep.ob("R05.7", "saved-watermark-is-the-written-snapshot|%s" % hname, bool(before) and not late,
-                   "%s raises last_saved_version to a value obtained after the metadata PUT returned (%s): a change that landed while the PUT was in flight is "
-                   "counted as saved although the written snapshot does not contain it - the next flush is a no-op and the change is lost on reopen" % (
-                       hname, ", ".join("%s line %d" % (x.name.rsplit("::", 1)[-1], x.line) for x in late[:3]) or "no metadata PUT precedes the raise"),
-                   e.where())
-    if n57 < 1:
-        raise CheckerFault("anchor missing: no raise of last_saved_version found")
-    return rep.finish(EXPLAIN)
+            trav = []       # pass-through calls on the slice that read shared state (`self.metadata.read()`, an atomic load)
+
+            def _through(ev_, trav=trav):
+                if ev_.callee in core.TRANSPARENT:
+                    if re.search(r"(RwLock|Mutex|Atomic)", ev_.name):
+                        trav.append(ev_)
+                    return True
+                return False
+            origins = [o[1] for o in h.slice_back_op(e.args[1], through=_through) if o[0] in ("call", "create") and len(o) > 1]
+            for ev in origins + trav:
+                if ev is not None and getattr(ev, "fn", h) is h and any(h.dominates(w.block, ev.block) and ev.block != w.block for w in before):
+                    late.append(ev)
+            rep.ob(rid, "saved-watermark-is-the-written-snapshot|%s|%s" % (h.crate, hname), not late,
+                   "%s raises last_saved_version to a value obtained after the write it stands for returned (%s): a change that landed while the write was in "
+                   "flight is counted as saved although the written snapshot does not contain it - the next flush is a no-op and the change is lost on reopen" % (
+                       hname, ", ".join("%s line %d" % (x.name.rsplit("::", 1)[-1], x.line) for x in late[:3])), e.where())
+    if decided < floor:
+        raise CheckerFault("anchor missing: %d raise(s) of last_saved_version behind an awaited write in %s (expected >= %d)" % (decided, crates, floor))
